@@ -96,6 +96,7 @@ type SpecFile struct {
 	Raw       []string
 	WfNonNil  bool
 	Homs      []string
+	Ghosts    map[string]*ast.FuncDecl
 }
 
 func (c *Contract) clauses(kind string) []*Clause {
@@ -190,6 +191,20 @@ func parseSpecFile(path string) (*SpecFile, error) {
 			sf.Contracts[c.Key] = c
 			sf.Order = append(sf.Order, c.Key)
 			cur = c
+		case strings.HasPrefix(t, "ghost "):
+			// ghost name(x T) R   - a piece of ghost state indexed by x
+			cur = nil
+			src := "package p\nfunc " + strings.TrimPrefix(t, "ghost ") + " {}\n"
+			fset := token.NewFileSet()
+			f, err := parser.ParseFile(fset, "g.go", src, 0)
+			if err != nil {
+				return nil, fmt.Errorf("line %d: bad ghost declaration: %v", l.no, err)
+			}
+			fd := f.Decls[0].(*ast.FuncDecl)
+			if sf.Ghosts == nil {
+				sf.Ghosts = map[string]*ast.FuncDecl{}
+			}
+			sf.Ghosts[fd.Name.Name] = fd
 		case strings.HasPrefix(t, "homomorphism "):
 			// a ghost string function h with h(a+b) == h(a)+h(b); the engine
 			// states the instance at every string concatenation in code
